@@ -405,6 +405,7 @@ def run(ctx):
             nontriv = any(GI.in_degree(v) > 0 and GI.out_degree(v) > 0 for v in GI.nodes()) and \
                 any(e not in m.edges_to_ignore for e in GI.edges())
         ctx.case(describe(kw), nontrivial=nontriv, sample=describe(kw) if i < 4 else None)
+    import gencheck_misc; gencheck_misc.run_generated_c16(ctx)   # generated-model tie: MinErrorFlow._encode_flow / objective regenerated from source (coq/gen_proofs/EncMef*.v)
 
 
 def replay(ctx, body):
